@@ -96,6 +96,12 @@ CHECKS["C09"] = dict(
   text="Two complete stacks with generated sets of blocking application threads (accept, connect, resolve, send on a full window, recv, sendto, recvfrom, poll, SNEP/handover servers); the link is ended by RF disruption at frame n, local terminate at time T or a device IOError at driver call j. Afterwards every thread must have returned or raised nfc.llcp.Error, servers exited, both connect() returned; calls issued after termination must return/raise within bounded virtual time. The race leg enumerates every schedule in {0,1}^9 (quick) / {0,1}^13 (thorough) of 8 blocking calls against terminate().",
   note=TRUST + "Interleavings at synchronisation-point granularity; 'bounded time' = fixed virtual-time bound. Known finding C09-calls-after-termination-block (no 'terminated' link state) excluded by class.")
 
+CHECKS["C15"] = dict(
+  category="exploration",
+  technique="schedule exploration under a deterministic virtual scheduler: property-based generation of multi-threaded programs over the public frontend API against a recording driver proxy; single-preemption sweep; lock-ownership/overlap oracle at every driver call; ast-derived call-site coverage",
+  text="2-4 threads run generated programs over open/close/sense/listen/exchange/size queries/connect(rdwr|llcp|card)/__exit__; the proxy device checks at the entry of every driver method that the frontend lock is owned by the calling thread, that no other thread is inside a driver call and that the device was not closed, then lets virtual time pass so contention is observable. All 17 syntactic self.device.<m> call sites of ContactlessFrontend are exercised (reported by the sites leg).",
+  note=TRUST + "Synchronisation-point granularity; the per-call-site clause is measured dynamically, not proven syntactically.")
+
 PENDING_REASON = "not claimed yet: its generated-input check (DESIGN.md section 3) is still under construction in this session; nothing is asserted about it"
 
 def main():
